@@ -347,6 +347,12 @@ func (w *World) buildReply(ep *Endpoint, pr *ProbeRec, hp *HopPlan, r *Reply) (b
 			seg.SrcPort += uint16(nz(k))
 		case "dport":
 			seg.DstPort += uint16(nz(k))
+		case "ack":
+			// acknowledges a sequence number this run never used (another incarnation of the flow)
+			if seg.Flags&codec.FlagACK == 0 || base == "sack" || base == "plainack" {
+				return nil, false
+			}
+			seg.Ack += uint32(nz(k)) * 7919
 		default:
 			return nil, false
 		}
